@@ -675,6 +675,8 @@ func cmdCheck(args []string) int {
 	exit := 0
 	type class struct{ clause, key string }
 	seen := map[class]bool{}
+	tried := map[class]int{}
+	unreproduced := map[class]string{}
 	var reported []map[string]interface{}
 	knownHit := map[string]bool{}
 	sort.Slice(total.Violations, func(i, j int) bool { return total.Violations[i].Steps < total.Violations[j].Steps })
@@ -684,6 +686,10 @@ func cmdCheck(args []string) int {
 		if seen[c] || len(seen) >= 6 {
 			continue
 		}
+		if tried[c] >= 4 {
+			continue
+		}
+		tried[c]++
 		seen[c] = true
 		v.Tree = tree
 		raw, _ := json.Marshal(v)
@@ -733,6 +739,16 @@ func cmdCheck(args []string) int {
 		if hashBad > 0 {
 			ok = 0
 		}
+		if ok < 2 && pc.race && v.Violation.Clause == "data-race" && hashBad == 0 {
+			// The schedule replayed identically but the detector stayed silent (its
+			// verdict is not a pure function of the schedule, see above): try another
+			// run that showed the same race before giving up on this class.
+			os.Remove(path)
+			delete(seen, c)
+			unreproduced[c] = fmt.Sprintf("violation %s/%s (seed %d) did not reproduce in %d identical-schedule replays", rf.Violation.Clause, rf.Violation.Key, rf.Seed, attempts)
+			continue
+		}
+		delete(unreproduced, c)
 		if ok < 2 {
 			os.Rename(path, filepath.Join(os.TempDir(), "verif-unreproduced-"+name))
 			fmt.Fprintf(os.Stderr, "%s\n", abbreviate(rf.Violation.Detail, 3000))
@@ -750,6 +766,12 @@ func cmdCheck(args []string) int {
 		fmt.Printf("  clause=%s key=%s\n  %s\n  %s\n", rf.Violation.Clause, rf.Violation.Key, abbreviate(rf.Violation.Detail, 600), rf.Note)
 		reported = append(reported, map[string]interface{}{"known": false, "clause": rf.Violation.Clause, "key": rf.Violation.Key, "replay": path, "detail": abbreviate(rf.Violation.Detail, 400)})
 		exit = 1
+	}
+	for c, msg := range unreproduced {
+		if !seen[c] {
+			// a race was reported by the detector but no run reproduces it: harness trouble, nothing is claimed
+			fatal2("%s; no other run of this class reproduced either: nothing reported", msg)
+		}
 	}
 	wall := time.Since(start).Seconds()
 	if !*noEvidence {
